@@ -227,7 +227,11 @@ def alive(p):
     except OSError:
         return False
 time.sleep(0.2)
-print(json.dumps({"elapsed": round(dt, 2), "len": len(g), "alive": [p for p in pids if alive(p)]}))
+left = [p for p in pids if alive(p)]
+print(json.dumps({"elapsed": round(dt, 2), "len": len(g), "alive": left}))
+for p in left:  # reported above; never leave a (possibly stopped) child behind the check itself
+    try: os.kill(p, signal.SIGKILL)
+    except OSError: pass
 '''
 
 
